@@ -31,9 +31,15 @@ theorem allowsQ_iff_denQ (w : Wc) (q : QN) : allowsQ w q = true ↔ denQ w q := 
   unfold allowsQ denQ
   simp [nsAllowed_iff_den]
 
+/-- the two operands can be combined branch by branch: same target namespace, or no `##other`
+    (which is what `normPair` establishes for wildcards of different target namespaces) -/
+def NoOther (w : Wc) : Prop := w.ns.isOther = false ∨ w.notNs.isEmpty = false
+
+def Compat (a b : Wc) : Prop := a.tns = b.tns ∨ (NoOther a ∧ NoOther b)
+
 /-! ### intersection -/
 
-theorem interNs_spec (a b : Wc) (htns : a.tns = b.tns) (n : String) (hx : n ≠ xsiNs) :
+theorem interNs_spec_sameTns (a b : Wc) (htns : a.tns = b.tns) (n : String) (hx : n ≠ xsiNs) :
     nsAllowed (interNs a b) n = (nsAllowed a n && nsAllowed b n) := by
   obtain ⟨ans, ann, aq, ad, asb, atn⟩ := a
   obtain ⟨bns, bnn, bq, bd, bsb, btn⟩ := b
@@ -42,6 +48,22 @@ theorem interNs_spec (a b : Wc) (htns : a.tns = b.tns) (n : String) (hx : n ≠ 
   cases ans <;> cases bns <;> cases ann <;> cases bnn <;>
     simp [interNs, nsAllowed, mem, NsC.isAny, NsC.isOther, NsC.elems, NsC.beq, hx] <;>
     grind
+
+theorem interNs_spec_noOther (a b : Wc) (ha : NoOther a) (hb : NoOther b)
+    (n : String) (hx : n ≠ xsiNs) :
+    nsAllowed (interNs a b) n = (nsAllowed a n && nsAllowed b n) := by
+  obtain ⟨ans, ann, aq, ad, asb, atn⟩ := a
+  obtain ⟨bns, bnn, bq, bd, bsb, btn⟩ := b
+  unfold NoOther at ha hb
+  cases ans <;> cases bns <;> cases ann <;> cases bnn <;> simp [NsC.isOther] at ha hb <;>
+    simp [interNs, nsAllowed, mem, NsC.isAny, NsC.isOther, NsC.elems, NsC.beq, hx] <;>
+    grind
+
+theorem interNs_spec (a b : Wc) (hc : Compat a b) (n : String) (hx : n ≠ xsiNs) :
+    nsAllowed (interNs a b) n = (nsAllowed a n && nsAllowed b n) := by
+  rcases hc with h | ⟨ha, hb⟩
+  · exact interNs_spec_sameTns a b h n hx
+  · exact interNs_spec_noOther a b ha hb n hx
 
 theorem interNs_fields (a b : Wc) :
     (interNs a b).notQ = a.notQ ∧ (interNs a b).notDefined = a.notDefined ∧
@@ -56,20 +78,27 @@ theorem nsAllowed_congr {a b : Wc} (h1 : a.ns = b.ns) (h2 : a.notNs = b.notNs) (
     (n : String) : nsAllowed a n = nsAllowed b n := by
   unfold nsAllowed; rw [h1, h2, h3]
 
-/-- The namespace constraint of `intersection a b` admits exactly the namespaces admitted by both
+theorem Compat.of_fields {a a' b : Wc} (hc : Compat a b) (h1 : a'.ns = a.ns) (h2 : a'.notNs = a.notNs)
+    (h3 : a'.tns = a.tns) :
+    Compat a' b := by
+  rcases hc with h | ⟨ha, hb⟩
+  · exact .inl (h3.trans h)
+  · exact .inr ⟨by unfold NoOther at ha ⊢; rw [h1, h2]; exact ha, hb⟩
+
+/-- The namespace constraint of `intersectionCore a b` admits exactly the namespaces admitted by both
     (both wildcards declared in the same target namespace; names outside the xsi namespace). -/
-theorem intersection_ns_spec (a b : Wc) (htns : a.tns = b.tns) (n : String) (hx : n ≠ xsiNs) :
-    nsAllowed (intersection a b) n = (nsAllowed a n && nsAllowed b n) := by
+theorem intersection_ns_spec_core (a b : Wc) (hc : Compat a b) (n : String) (hx : n ≠ xsiNs) :
+    nsAllowed (intersectionCore a b) n = (nsAllowed a n && nsAllowed b n) := by
   obtain ⟨h1, h2, h3⟩ := interNotQ_fields a b
-  unfold intersection
-  rw [interNs_spec _ _ (h3.trans htns) n hx, nsAllowed_congr h1 h2 h3]
+  unfold intersectionCore
+  rw [interNs_spec _ _ (hc.of_fields h1 h2 h3) n hx, nsAllowed_congr h1 h2 h3]
 
 /-- Name level, with the context-dependent `##defined` / `##definedSibling` exclusions as
     arbitrary predicates: the intersection admits exactly the names admitted by both. -/
-theorem intersection_spec (a b : Wc) (htns : a.tns = b.tns) (D S : QN → Bool) (q : QN)
+theorem intersection_spec_core (a b : Wc) (hc : Compat a b) (D S : QN → Bool) (q : QN)
     (hx : q.ns ≠ xsiNs) :
-    allows (intersection a b) D S q = (allows a D S q && allows b D S q) := by
-  have hns := intersection_ns_spec a b htns q.ns hx
+    allows (intersectionCore a b) D S q = (allows a D S q && allows b D S q) := by
+  have hns := intersection_ns_spec_core a b hc q.ns hx
   obtain ⟨f1, f2, f3, -⟩ := interNs_fields (interNotQ a b) b
   have hq : (interNotQ a b).notQ.contains q = (a.notQ.contains q || b.notQ.contains q) := by
     unfold interNotQ
@@ -82,7 +111,7 @@ theorem intersection_spec (a b : Wc) (htns : a.tns = b.tns) (D S : QN → Bool) 
     cases hqa : a.notQ <;> cases a.notDefined <;> cases a.notSibling <;> simp
   unfold allows
   rw [hns]
-  unfold intersection
+  unfold intersectionCore
   rw [f1, f2, f3, hq, hd, hs]
   cases nsAllowed a q.ns <;> cases nsAllowed b q.ns <;> cases a.notDefined <;>
     cases b.notDefined <;> cases a.notSibling <;> cases b.notSibling <;> cases D q <;>
@@ -90,7 +119,7 @@ theorem intersection_spec (a b : Wc) (htns : a.tns = b.tns) (D S : QN → Bool) 
 
 /-! ### restriction -/
 
-theorem restrNs_sound (a b : Wc) (htns : a.tns = b.tns) (h : restrNs a b = true)
+theorem restrNs_sound_sameTns (a b : Wc) (htns : a.tns = b.tns) (h : restrNs a b = true)
     (n : String) (hx : n ≠ xsiNs) (ha : nsAllowed a n = true) : nsAllowed b n = true := by
   obtain ⟨ans, ann, aq, ad, asb, atn⟩ := a
   obtain ⟨bns, bnn, bq, bd, bsb, btn⟩ := b
@@ -101,16 +130,33 @@ theorem restrNs_sound (a b : Wc) (htns : a.tns = b.tns) (h : restrNs a b = true)
     simp [restrNs, nsAllowed, mem, NsC.isAny, NsC.isOther, NsC.elems, NsC.beq, hx] <;>
     grind
 
+theorem restrNs_sound_noOther (a b : Wc) (hoa : NoOther a) (hob : NoOther b)
+    (h : restrNs a b = true) (n : String) (hx : n ≠ xsiNs) (ha : nsAllowed a n = true) :
+    nsAllowed b n = true := by
+  obtain ⟨ans, ann, aq, ad, asb, atn⟩ := a
+  obtain ⟨bns, bnn, bq, bd, bsb, btn⟩ := b
+  unfold NoOther at hoa hob
+  revert h ha
+  cases ans <;> cases bns <;> cases ann <;> cases bnn <;> simp [NsC.isOther] at hoa hob <;>
+    simp [restrNs, nsAllowed, mem, NsC.isAny, NsC.isOther, NsC.elems, NsC.beq, hx] <;>
+    grind
+
+theorem restrNs_sound (a b : Wc) (hc : Compat a b) (h : restrNs a b = true)
+    (n : String) (hx : n ≠ xsiNs) (ha : nsAllowed a n = true) : nsAllowed b n = true := by
+  rcases hc with h' | ⟨hoa, hob⟩
+  · exact restrNs_sound_sameTns a b h' h n hx ha
+  · exact restrNs_sound_noOther a b hoa hob h n hx ha
+
 /-- A wildcard accepted as a restriction of another admits a subset of its names
     (`##defined`/`##definedSibling` as arbitrary predicates of the surrounding schema). -/
-theorem restriction_sound (a b : Wc) (pa pb : PC) (htns : a.tns = b.tns)
-    (h : isRestriction a b pa pb = true) (D S : QN → Bool) (q : QN) (hx : q.ns ≠ xsiNs)
+theorem restriction_sound_core (a b : Wc) (pa pb : PC) (hc : Compat a b)
+    (h : isRestrictionCore a b pa pb = true) (D S : QN → Bool) (q : QN) (hx : q.ns ≠ xsiNs)
     (ha : allows a D S q = true) : allows b D S q = true := by
-  simp only [isRestriction, Bool.and_eq_true] at h
+  simp only [isRestrictionCore, Bool.and_eq_true] at h
   obtain ⟨⟨-, hq⟩, hn⟩ := h
   simp only [allows, Bool.and_eq_true] at ha ⊢
   obtain ⟨⟨⟨ha1, ha2⟩, ha3⟩, ha4⟩ := ha
-  have hb1 := restrNs_sound a b htns hn q.ns hx ha1
+  have hb1 := restrNs_sound a b hc hn q.ns hx ha1
   refine ⟨⟨⟨hb1, ?_⟩, ?_⟩, ?_⟩
   · revert hq ha2; unfold restrQ
     cases a.notDefined <;> cases b.notDefined <;> cases D q <;> simp
@@ -134,22 +180,20 @@ def XsiFree (w : Wc) : Prop := xsiNs ∉ w.ns.elems ∧ xsiNs ∉ w.notNs
 
 instance (w : Wc) : Decidable (XsiFree w) := by unfold XsiFree; infer_instance
 
-/-- Two element wildcards declared in the same target namespace are treated as overlapping
+/-- Two element wildcards (of any target namespaces) are treated as overlapping
     exactly when some namespace (outside xsi) is admitted by both.  The universe of namespace
     names is infinite, which is what makes two negative constraints always overlap. -/
-theorem overlap_spec (a b : Wc) (htns : a.tns = b.tns) (hxa : XsiFree a) (hxb : XsiFree b) :
-    isOverlap a b = true ↔ ∃ n, n ≠ xsiNs ∧ nsAllowed a n = true ∧ nsAllowed b n = true := by
+theorem overlap_spec_core (a b : Wc) (hxa : XsiFree a) (hxb : XsiFree b) :
+    isOverlapCore a b = true ↔ ∃ n, n ≠ xsiNs ∧ nsAllowed a n = true ∧ nsAllowed b n = true := by
   obtain ⟨ans, ann, aq, ad, asb, atn⟩ := a
   obtain ⟨bns, bnn, bq, bd, bsb, btn⟩ := b
-  simp only at htns
-  subst htns
-  have hf := fresh_not_mem (xsiNs :: "" :: atn :: (ans.elems ++ bns.elems ++ ann ++ bnn))
-  generalize fresh (xsiNs :: "" :: atn :: (ans.elems ++ bns.elems ++ ann ++ bnn)) = z at hf
+  have hf := fresh_not_mem (xsiNs :: "" :: atn :: btn :: (ans.elems ++ bns.elems ++ ann ++ bnn))
+  generalize fresh (xsiNs :: "" :: atn :: btn :: (ans.elems ++ bns.elems ++ ann ++ bnn)) = z at hf
   simp only [XsiFree] at hxa hxb
   constructor
   · intro h
     cases ans <;> cases bns <;> cases ann <;> cases bnn <;>
-      simp [isOverlap, nsAllowed, mem, NsC.isAny, NsC.isOther, NsC.elems, NsC.beq] at h hf hxa hxb ⊢
+      simp [isOverlapCore, nsAllowed, mem, NsC.isAny, NsC.isOther, NsC.elems, NsC.beq] at h hf hxa hxb ⊢
     all_goals first
       | exact ⟨z, by grind⟩
       | (obtain ⟨x, hx⟩ := h; exact ⟨x, by grind⟩)
@@ -163,7 +207,7 @@ theorem overlap_spec (a b : Wc) (htns : a.tns = b.tns) (hxa : XsiFree a) (hxb : 
   · rintro ⟨n, hn, h1, h2⟩
     revert h1 h2
     cases ans <;> cases bns <;> cases ann <;> cases bnn <;>
-      simp [isOverlap, nsAllowed, mem, NsC.isAny, NsC.isOther, NsC.elems, NsC.beq, hn] <;>
+      simp [isOverlapCore, nsAllowed, mem, NsC.isAny, NsC.isOther, NsC.elems, NsC.beq, hn] <;>
       grind
 
 /-! ### union -/
@@ -173,7 +217,7 @@ theorem nsAllowed_ofNotNs (w : Wc) (nn : List String) (c : Bool) (n : String) :
   unfold ofNotNs
   cases nn <;> cases c <;> simp [nsAllowed, mem, NsC.isAny]
 
-theorem unionN_spec (a b : Wc) (_htns : a.tns = b.tns) (ha : a.notNs.isEmpty = false)
+theorem unionN_spec (a b : Wc) (ha : a.notNs.isEmpty = false)
     (n : String) (hx : n ≠ xsiNs) :
     nsAllowed (unionN a b) n = (nsAllowed a n || nsAllowed b n) := by
   unfold unionN
@@ -181,7 +225,7 @@ theorem unionN_spec (a b : Wc) (_htns : a.tns = b.tns) (ha : a.notNs.isEmpty = f
     simp [nsAllowed_ofNotNs, NsC.isAny, NsC.isOther, NsC.elems] <;>
     simp [nsAllowed, mem, NsC.isAny, NsC.isOther, NsC.elems, ha, hb, hbn, hx] <;> grind
 
-theorem unionPN_spec (a b : Wc) (_htns : a.tns = b.tns) (ha : a.notNs.isEmpty = true)
+theorem unionPN_spec (a b : Wc) (ha : a.notNs.isEmpty = true)
     (hb : b.notNs.isEmpty = false) (n : String) (hx : n ≠ xsiNs) :
     nsAllowed (unionPN a b) n = (nsAllowed a n || nsAllowed b n) := by
   unfold unionPN
@@ -202,22 +246,33 @@ theorem unionOtherSet_spec (v11 : Bool) (s w1 w2 u : Wc) (h1 : w1.ns = .other)
     simp [nsAllowed, mem, NsC.isAny, NsC.isOther, NsC.elems, h1, h1n, h2n, h2, hsn, hs, hx] <;>
     grind [mem]
 
-theorem unionPP_spec (v11 : Bool) (a b u : Wc) (htns : a.tns = b.tns)
+theorem unionPP_spec (v11 : Bool) (a b u : Wc) (hc : Compat a b)
     (ha : a.notNs = []) (hb : b.notNs = []) (h : unionPP v11 a b = some u)
     (n : String) (hx : n ≠ xsiNs) :
     nsAllowed u n = (nsAllowed a n || nsAllowed b n) := by
+  have htns : b.ns.isOther = true → a.tns = b.tns := by
+    intro hbo
+    rcases hc with h' | ⟨_, hb'⟩
+    · exact h'
+    · unfold NoOther at hb'
+      rw [hbo, hb] at hb'
+      simp at hb'
   unfold unionPP at h
   cases has : a.ns <;> cases hbs : b.ns <;>
     simp only [has, hbs, NsC.isAny, NsC.isOther, NsC.isEmpty_set, NsC.isEmpty_any,
       NsC.isEmpty_other, NsC.beq, NsC.elems, Bool.or_true, Bool.or_false, if_true, Bool.false_eq_true, if_false] at h
-  all_goals (try (cases h; simp [nsAllowed, NsC.isAny, NsC.isOther, NsC.elems, mem, ha, hb, has, hbs, hx, htns]; done))
+  all_goals (try (cases h; simp [nsAllowed, NsC.isAny, NsC.isOther, NsC.elems, mem, ha, hb, has, hbs, hx]; done))
+  case other.other =>
+    have ht := htns (by simp [hbs, NsC.isOther])
+    cases h
+    simp [nsAllowed, NsC.isAny, NsC.isOther, ha, hb, has, hbs, hx, ht]
   case other.set l =>
     split at h
     · cases h
       simp_all [nsAllowed, NsC.isAny, NsC.isOther, NsC.elems, mem]
     · rw [unionOtherSet_spec v11 a a b u has ha hb _ hbs h rfl ha n hx]
   case set.other l =>
-    rw [unionOtherSet_spec v11 a b a u hbs hb ha _ has h htns ha n hx, Bool.or_comm]
+    rw [unionOtherSet_spec v11 a b a u hbs hb ha _ has h (htns (by simp [hbs, NsC.isOther])) ha n hx, Bool.or_comm]
   case set.set la lb =>
     split at h
     · cases h
@@ -227,15 +282,15 @@ theorem unionPP_spec (v11 : Bool) (a b u : Wc) (htns : a.tns = b.tns)
 
 /-- The namespace constraint computed by `union` (when it is expressible) admits exactly the
     namespaces admitted by either operand. -/
-theorem unionNs_spec (v11 : Bool) (a b u : Wc) (htns : a.tns = b.tns)
+theorem unionNs_spec (v11 : Bool) (a b u : Wc) (hc : Compat a b)
     (h : unionNs v11 a b = some u) (n : String) (hx : n ≠ xsiNs) :
     nsAllowed u n = (nsAllowed a n || nsAllowed b n) := by
   unfold unionNs at h
   split at h
-  · cases h; exact unionN_spec a b htns (by simp_all) n hx
+  · cases h; exact unionN_spec a b (by simp_all) n hx
   · split at h
-    · cases h; exact unionPN_spec a b htns (by simp_all) (by simp_all) n hx
-    · exact unionPP_spec v11 a b u htns (by simp_all) (by simp_all) h n hx
+    · cases h; exact unionPN_spec a b (by simp_all) (by simp_all) n hx
+    · exact unionPP_spec v11 a b u hc (by simp_all) (by simp_all) h n hx
 
 theorem ofNotNs_fields (w : Wc) (nn : List String) (c : Bool) :
     (ofNotNs w nn c).notQ = w.notQ ∧ (ofNotNs w nn c).notDefined = w.notDefined ∧
@@ -249,19 +304,19 @@ theorem unionNs_fields (v11 : Bool) (a b u : Wc) (h : unionNs v11 a b = some u) 
   all_goals (first | cases h | skip)
   all_goals simp [ofNotNs_fields]
 
-theorem union_ns_spec (v11 : Bool) (a b u : Wc) (htns : a.tns = b.tns)
-    (h : union v11 a b = some u) (n : String) (hx : n ≠ xsiNs) :
+theorem union_ns_spec_core (v11 : Bool) (a b u : Wc) (hc : Compat a b)
+    (h : unionCore v11 a b = some u) (n : String) (hx : n ≠ xsiNs) :
     nsAllowed u n = (nsAllowed a n || nsAllowed b n) := by
-  unfold union at h
+  unfold unionCore at h
   have h' : nsAllowed (unionNotQ a b) n = nsAllowed a n := nsAllowed_congr rfl rfl rfl n
-  rw [unionNs_spec v11 (unionNotQ a b) b u htns h n hx, h']
+  rw [unionNs_spec v11 (unionNotQ a b) b u (hc.of_fields rfl rfl rfl) h n hx, h']
 
 /-- Union never loses a name: whatever either operand admits, the union admits
     (`##defined` / `##definedSibling` as arbitrary predicates). -/
-theorem union_complete (v11 : Bool) (a b u : Wc) (htns : a.tns = b.tns)
-    (h : union v11 a b = some u) (D S : QN → Bool) (q : QN) (hx : q.ns ≠ xsiNs)
+theorem union_complete_core (v11 : Bool) (a b u : Wc) (hc : Compat a b)
+    (h : unionCore v11 a b = some u) (D S : QN → Bool) (q : QN) (hx : q.ns ≠ xsiNs)
     (hab : allows a D S q = true ∨ allows b D S q = true) : allows u D S q = true := by
-  have hns := union_ns_spec v11 a b u htns h q.ns hx
+  have hns := union_ns_spec_core v11 a b u hc h q.ns hx
   obtain ⟨f1, f2, f3⟩ := unionNs_fields v11 _ b u h
   simp only [allows, Bool.and_eq_true, Bool.not_eq_true', Bool.and_eq_false_iff] at hab ⊢
   rw [hns, f1, f2, f3]
@@ -273,10 +328,10 @@ theorem union_complete (v11 : Bool) (a b u : Wc) (htns : a.tns = b.tns)
 
 /-- On explicit `notQName` names (`allowsQ` ignores the context-dependent `##defined` tokens)
     the union is exact: it admits a name iff one of the operands does. -/
-theorem union_exact (v11 : Bool) (a b u : Wc) (htns : a.tns = b.tns)
-    (h : union v11 a b = some u) (q : QN) (hx : q.ns ≠ xsiNs) :
+theorem union_exact_core (v11 : Bool) (a b u : Wc) (hc : Compat a b)
+    (h : unionCore v11 a b = some u) (q : QN) (hx : q.ns ≠ xsiNs) :
     allowsQ u q = (allowsQ a q || allowsQ b q) := by
-  have hns := union_ns_spec v11 a b u htns h q.ns hx
+  have hns := union_ns_spec_core v11 a b u hc h q.ns hx
   obtain ⟨f1, -, -⟩ := unionNs_fields v11 _ b u h
   unfold allowsQ
   rw [hns, f1]
@@ -286,8 +341,8 @@ theorem union_exact (v11 : Bool) (a b u : Wc) (htns : a.tns = b.tns)
     simp_all [List.contains_eq_mem] <;> grind
 
 /-- XSD 1.1 can express every union. -/
-theorem union_expressible_11 (a b : Wc) : (union true a b).isSome = true := by
-  unfold union unionNs unionPP unionOtherSet
+theorem union_expressible_11_core (a b : Wc) : (unionCore true a b).isSome = true := by
+  unfold unionCore unionNs unionPP unionOtherSet
   (repeat' split) <;> simp_all
 
 /-- In XSD 1.0 the only refused union is `##other ∪ S` with `absent ∈ S` and `tns ∉ S`
@@ -300,6 +355,163 @@ theorem union_refused_10 (a b : Wc) (h : unionNs false a b = none) :
   repeat' split at h
   all_goals (first | cases h | skip)
   all_goals simp_all
+
+/-! ### the operations as the code performs them: wildcards of ANY target namespaces
+
+`##other` is relative to the wildcard's own target namespace; the operations first bring two wildcards of
+different target namespaces into the absolute form (`normPair`, port of `_absolute_other`).  With that step the
+set reading holds without any hypothesis on the target namespaces. -/
+
+theorem absOther_noOther (w : Wc) : NoOther (absOther w) := by
+  unfold absOther NoOther
+  split
+  · left; simp [NsC.isOther]
+  · rename_i h
+    cases hns : w.ns <;> cases hnn : w.notNs <;> simp_all [NsC.isOther]
+
+theorem nsAllowed_absOther (w : Wc) (n : String) (hx : n ≠ xsiNs) :
+    nsAllowed (absOther w) n = nsAllowed w n := by
+  unfold absOther
+  cases hns : w.ns <;> cases hnn : w.notNs <;>
+    simp [NsC.isOther, nsAllowed, mem, NsC.isAny, NsC.elems, hns, hnn, hx] <;> grind
+
+theorem absOther_fields (w : Wc) :
+    (absOther w).notQ = w.notQ ∧ (absOther w).notDefined = w.notDefined ∧
+    (absOther w).notSibling = w.notSibling ∧ (absOther w).tns = w.tns := by
+  unfold absOther; split <;> simp
+
+theorem allows_absOther (w : Wc) (D S : QN → Bool) (q : QN) (hx : q.ns ≠ xsiNs) :
+    allows (absOther w) D S q = allows w D S q := by
+  obtain ⟨f1, f2, f3, -⟩ := absOther_fields w
+  unfold allows
+  rw [nsAllowed_absOther w q.ns hx, f1, f2, f3]
+
+theorem allowsQ_absOther (w : Wc) (q : QN) (hx : q.ns ≠ xsiNs) :
+    allowsQ (absOther w) q = allowsQ w q := by
+  obtain ⟨f1, -, -, -⟩ := absOther_fields w
+  unfold allowsQ
+  rw [nsAllowed_absOther w q.ns hx, f1]
+
+theorem compat_normPair (a b : Wc) : Compat (normPair a b).1 (normPair a b).2 := by
+  unfold normPair
+  split
+  · rename_i h; exact .inl (by simpa using h)
+  · exact .inr ⟨absOther_noOther a, absOther_noOther b⟩
+
+theorem normPair_allows (a b : Wc) (D S : QN → Bool) (q : QN) (hx : q.ns ≠ xsiNs) :
+    allows (normPair a b).1 D S q = allows a D S q ∧ allows (normPair a b).2 D S q = allows b D S q := by
+  unfold normPair
+  split
+  · exact ⟨rfl, rfl⟩
+  · exact ⟨allows_absOther a D S q hx, allows_absOther b D S q hx⟩
+
+theorem normPair_nsAllowed (a b : Wc) (n : String) (hx : n ≠ xsiNs) :
+    nsAllowed (normPair a b).1 n = nsAllowed a n ∧ nsAllowed (normPair a b).2 n = nsAllowed b n := by
+  unfold normPair
+  split
+  · exact ⟨rfl, rfl⟩
+  · exact ⟨nsAllowed_absOther a n hx, nsAllowed_absOther b n hx⟩
+
+theorem normPair_allowsQ (a b : Wc) (q : QN) (hx : q.ns ≠ xsiNs) :
+    allowsQ (normPair a b).1 q = allowsQ a q ∧ allowsQ (normPair a b).2 q = allowsQ b q := by
+  unfold normPair
+  split
+  · exact ⟨rfl, rfl⟩
+  · exact ⟨allowsQ_absOther a q hx, allowsQ_absOther b q hx⟩
+
+/-- **Intersection** (attribute-group composition): the computed wildcard admits exactly the names both
+    operands admit — any two wildcards, any target namespaces. -/
+theorem intersection_spec (a b : Wc) (D S : QN → Bool) (q : QN) (hx : q.ns ≠ xsiNs) :
+    allows (intersection a b) D S q = (allows a D S q && allows b D S q) := by
+  obtain ⟨h1, h2⟩ := normPair_allows a b D S q hx
+  unfold intersection
+  rw [intersection_spec_core _ _ (compat_normPair a b) D S q hx, h1, h2]
+
+theorem intersection_ns_spec (a b : Wc) (n : String) (hx : n ≠ xsiNs) :
+    nsAllowed (intersection a b) n = (nsAllowed a n && nsAllowed b n) := by
+  obtain ⟨h1, h2⟩ := normPair_nsAllowed a b n hx
+  unfold intersection
+  rw [intersection_ns_spec_core _ _ (compat_normPair a b) n hx, h1, h2]
+
+/-- **Restriction**: a wildcard accepted as a restriction of another admits a subset of its names. -/
+theorem restriction_sound (a b : Wc) (pa pb : PC) (h : isRestriction a b pa pb = true)
+    (D S : QN → Bool) (q : QN) (hx : q.ns ≠ xsiNs) (ha : allows a D S q = true) :
+    allows b D S q = true := by
+  obtain ⟨h1, h2⟩ := normPair_allows a b D S q hx
+  unfold isRestriction at h
+  rw [← h2]
+  exact restriction_sound_core _ _ pa pb (compat_normPair a b) h D S q hx (by rw [h1]; exact ha)
+
+/-- **Union** (extension): the computed namespace constraint admits exactly the namespaces either operand
+    admits. -/
+theorem union_ns_spec (v11 : Bool) (a b u : Wc) (h : union v11 a b = some u) (n : String)
+    (hx : n ≠ xsiNs) : nsAllowed u n = (nsAllowed a n || nsAllowed b n) := by
+  obtain ⟨h1, h2⟩ := normPair_nsAllowed a b n hx
+  unfold union at h
+  rw [union_ns_spec_core v11 _ _ u (compat_normPair a b) h n hx, h1, h2]
+
+/-- Union never loses a name (`##defined` / `##definedSibling` as arbitrary predicates). -/
+theorem union_complete (v11 : Bool) (a b u : Wc) (h : union v11 a b = some u) (D S : QN → Bool)
+    (q : QN) (hx : q.ns ≠ xsiNs) (hab : allows a D S q = true ∨ allows b D S q = true) :
+    allows u D S q = true := by
+  obtain ⟨h1, h2⟩ := normPair_allows a b D S q hx
+  unfold union at h
+  exact union_complete_core v11 _ _ u (compat_normPair a b) h D S q hx (by rw [h1, h2]; exact hab)
+
+/-- On explicit `notQName` names the union is exact. -/
+theorem union_exact (v11 : Bool) (a b u : Wc) (h : union v11 a b = some u) (q : QN)
+    (hx : q.ns ≠ xsiNs) : allowsQ u q = (allowsQ a q || allowsQ b q) := by
+  obtain ⟨h1, h2⟩ := normPair_allowsQ a b q hx
+  unfold union at h
+  rw [union_exact_core v11 _ _ u (compat_normPair a b) h q hx, h1, h2]
+
+/-- XSD 1.1 can express every union. -/
+theorem union_expressible_11 (a b : Wc) : (union true a b).isSome = true := by
+  unfold union
+  exact union_expressible_11_core _ _
+
+theorem XsiFree_absOther (w : Wc) (h : XsiFree w) (ht : w.tns ≠ xsiNs) : XsiFree (absOther w) := by
+  unfold absOther XsiFree at *
+  split
+  · simp only [NsC.elems, List.not_mem_nil, not_false_eq_true, List.mem_cons, true_and]
+    intro h'
+    rcases h' with h' | h' | h'
+    · exact absurd h' (by decide)
+    · exact ht h'.symm
+    · cases h'
+  · exact h
+
+/-- **Overlap**: two element wildcards are treated as overlapping exactly when some namespace (outside xsi)
+    is admitted by both. -/
+theorem overlap_spec (a b : Wc) (hxa : XsiFree a) (hxb : XsiFree b) (hta : a.tns ≠ xsiNs)
+    (htb : b.tns ≠ xsiNs) :
+    isOverlap a b = true ↔ ∃ n, n ≠ xsiNs ∧ nsAllowed a n = true ∧ nsAllowed b n = true := by
+  unfold isOverlap
+  have hfa : XsiFree (normPair a b).1 := by
+    unfold normPair; split
+    · exact hxa
+    · exact XsiFree_absOther a hxa hta
+  have hfb : XsiFree (normPair a b).2 := by
+    unfold normPair; split
+    · exact hxb
+    · exact XsiFree_absOther b hxb htb
+  rw [overlap_spec_core _ _ hfa hfb]
+  constructor
+  · rintro ⟨n, hn, h1, h2⟩
+    obtain ⟨e1, e2⟩ := normPair_nsAllowed a b n hn
+    exact ⟨n, hn, by rw [← e1]; exact h1, by rw [← e2]; exact h2⟩
+  · rintro ⟨n, hn, h1, h2⟩
+    obtain ⟨e1, e2⟩ := normPair_nsAllowed a b n hn
+    exact ⟨n, hn, by rw [e1]; exact h1, by rw [e2]; exact h2⟩
+
+/-- Before the fix the operations did not normalise: `##other` of target namespace `urn:b` intersected with
+    `##other` of target namespace `urn:t` stayed `##other` of the first and still admitted the second's
+    namespace (finding C16-F4). -/
+theorem cross_namespace_counterexample :
+    let a : Wc := { ns := .other, tns := "urn:t" }
+    let b : Wc := { ns := .other, tns := "urn:b" }
+    nsAllowed (intersectionCore a b) "urn:b" = true ∧ nsAllowed b "urn:b" = false ∧
+    nsAllowed (intersection a b) "urn:b" = false := by decide
 
 /-! ### non-vacuity: concrete wildcards meeting the hypotheses, with non-trivial outcomes -/
 
